@@ -44,9 +44,9 @@ class Formatter(FormatterInterface):
         if dtype == L.DataType.REAL:
             return f"np.{self.real_type}"
         if dtype == L.DataType.INT:
-            return f"np.{np.int32}"
+            return "np.int32"
         if dtype == L.DataType.BOOL:
-            return f"np.{np.bool}"
+            return "np.bool_"
         raise ValueError(f"Invalid dtype: {dtype}")
 
     @singledispatchmethod
@@ -97,7 +97,9 @@ class Formatter(FormatterInterface):
         if arr.values is None:
             return f"{symbol} = np.empty({arr.sizes}, dtype={typename})\n"
         elif arr.values.size == 1:
-            return f"{symbol} = np.full({arr.sizes}, {arr.values[0]}, dtype={typename})\n"
+            # values may have several axes: take the single entry itself
+            # (a sub-array would be printed with numpy's reduced precision)
+            return f"{symbol} = np.full({arr.sizes}, {arr.values.flat[0]}, dtype={typename})\n"
         av = build_initializer_lists(arr.values)
         av = f"np.array({av}, dtype={typename})"
         return f"{symbol} = {av}\n"
